@@ -49,7 +49,7 @@ def preload():
 
 EXPECTED_PROBES = {t: ["enum_width_3", "enum_width_5_7", "enum_width_9_16", "raise_then_layout", "relayout_same",
                        "options_then_plain_binding", "nested_array", "array_of_struct_unrolled", "ids_out_of_order",
-                       "same_field_name_in_two_structs_with_block", "sibling_named_like_array_element", "tree_field_lists_permuted", "sibling_differs_in_case"] for t in TIERS}
+                       "same_field_name_in_two_structs_with_block", "sibling_named_like_array_element", "tree_field_lists_permuted", "sibling_differs_in_case", "enum_width_49_64"] for t in TIERS}
 
 OPT_KEYS = ("endianess", "mux_signal", "mux_count")
 
@@ -62,7 +62,8 @@ def gen_schema(rng):
     decls = []
     enums = []
     for ei in range(weighted(rng, [(0, 1), (1, 3), (2, 3), (3, 2)])):
-        b = weighted(rng, [(1, 2), (2, 2), (3, 4), (4, 2), (5, 3), (6, 2), (7, 3), (8, 2)] + [(k, 0.6) for k in range(9, 17)])
+        b = weighted(rng, [(1, 2), (2, 2), (3, 4), (4, 2), (5, 3), (6, 2), (7, 3), (8, 2)] + [(k, 0.6) for k in range(9, 17)]
+                     + [(k, 0.12) for k in range(17, 65)])          # every width class up to 64 bits
         mx = rng.choice([0, 1]) if b == 1 else rng.choice([1 << (b - 1), (1 << b) - 1, rng.randint(1 << (b - 1), (1 << b) - 1)])
         n = rng.randint(1, 4)
         vals = {mx}
@@ -81,6 +82,9 @@ def gen_schema(rng):
         nf = rng.randint(1, 5)
         fnames = rng.sample(pool, nf)
         ids = rng.sample(range(0, 2 * nf + 2), nf)
+        if rng.random() < 0.1:
+            # legal but unusual ids: negative, or beyond 32 bits (the order is still "ascending field id")
+            ids = rng.sample([-3, -1, 0, 1, 2, 7, 255, 65536, (1 << 32) - 1, 1 << 32, (1 << 32) + 5, 1 << 40], nf)
         depth_here = 1
         fields = []
         for fi in range(nf):
@@ -492,8 +496,10 @@ def schema_probes(decls, probes):
             probes["enum_width_3"] += 1
         elif 5 <= b <= 7:
             probes["enum_width_5_7"] += 1
-        elif b >= 9:
+        elif 9 <= b <= 16:
             probes["enum_width_9_16"] += 1
+        elif b >= 49:
+            probes["enum_width_49_64"] += 1
     names = Counter()
     for s in structs.values():
         ids = [f["id"] for f in s["fields"]]
